@@ -15,10 +15,10 @@
     * `Proofs/ScalingRefine.lean`: `iterFloor_limbs`, `iterRound_limbs` (the coefficient-domain iteration).
 
   The single-division variants use `INTTLazy`, which for `N < 16` returns values in `[1, 2q_ℓ]` (`0 ↦ q_ℓ`):
-  `4 ≤ K` (`N ≥ 16`) is a hypothesis of the proof technique (`nttCoreLazy_big`), no longer forced by the code
-  since repair C02-4 (`divFloorNTT_small_ring_repaired`).
+  the theorems hold for EVERY ring degree `N = 2^K` (`nttCoreLazy_big_all`, Proofs/ScalingNTTRange.lean); before repair
+  C02-4 of /repo they were false for `N < 16` (`divFloorNTT_small_ring_repaired`).
 -/
-import Lattigo.Proofs.NTTRangeBig
+import Lattigo.Proofs.ScalingNTTRange
 import Lattigo.Proofs.NTTTables
 import Lattigo.Proofs.ScalingRefine
 
@@ -101,7 +101,7 @@ theorem divNTT_core (Ti : Tables) (K : ℕ) (hTi : Valid Ti K) (ql : ℕ) (X : L
 /-! ## one row of `DivFloorByLastModulusNTT` / `DivRoundByLastModulusNTT` -/
 
 /-- one output row of `DivFloorByLastModulusNTT`, `N = 2^K ≥ 16` -/
-theorem divFloorNTT_row (Ti : Tables) (K : ℕ) (hTi : Valid Ti K) (hK : 4 ≤ K) (qi ql : ℕ)
+theorem divFloorNTT_row (Ti : Tables) (K : ℕ) (hTi : Valid Ti K) (qi ql : ℕ)
     (hqi : Ti.q = qi) (hqi61 : qi < 2 ^ 61) (hql0 : 0 < ql) (hql61 : ql < 2 ^ 61)
     (hinv : (ql * invMod ql qi) % qi = 1) (X : List ℕ) (hX : X.length = 2 ^ K) :
     List.zipWith (divFloorLimb qi ql) (nttStd Ti (X.map (· % qi))) (nttStdLazy Ti (X.map (· % ql)))
@@ -109,7 +109,7 @@ theorem divFloorNTT_row (Ti : Tables) (K : ℕ) (hTi : Valid Ti K) (hK : 4 ≤ K
   subst hqi
   have : Fact Ti.q.Prime := ⟨hTi.prime⟩
   have hq0 : 0 < Ti.q := hTi.q_pos
-  obtain ⟨hc, hr⟩ := nttCoreLazy_big hTi hK ql (by unfold W; omega) (X.map (· % ql)) (by
+  obtain ⟨hc, hr⟩ := nttCoreLazy_big_all hTi ql (by unfold W; omega) (X.map (· % ql)) (by
     intro x hx; rw [List.mem_map] at hx; obtain ⟨y, _, rfl⟩ := hx; exact Nat.mod_lt _ hql0)
   have hmax : max ql (4 * Ti.q) ≤ 2 ^ 63 := Nat.max_le.2 ⟨by omega, by omega⟩
   rw [divNTT_core Ti K hTi ql X hX (· % Ti.q) (· % ql) (fun x => Nat.mod_lt _ hq0)
@@ -159,7 +159,7 @@ theorem divRoundRes_spec (qi ql c x : ℕ) (hqi : 0 < qi) (hc : (ql * c) % qi = 
   ring
 
 /-- one output row of `DivRoundByLastModulusNTT`, `N = 2^K ≥ 16` -/
-theorem divRoundNTT_row (Ti : Tables) (K : ℕ) (hTi : Valid Ti K) (hK : 4 ≤ K) (qi ql : ℕ)
+theorem divRoundNTT_row (Ti : Tables) (K : ℕ) (hTi : Valid Ti K) (qi ql : ℕ)
     (hqi : Ti.q = qi) (hqi61 : qi < 2 ^ 61) (hql0 : 0 < ql) (hql61 : ql < 2 ^ 61)
     (hinv : (ql * invMod ql qi) % qi = 1) (X : List ℕ) (hX : X.length = 2 ^ K) :
     List.zipWith (divFloorLimb qi ql) (nttStd Ti (X.map (· % qi)))
@@ -170,7 +170,7 @@ theorem divRoundNTT_row (Ti : Tables) (K : ℕ) (hTi : Valid Ti K) (hK : 4 ≤ K
   have : Fact Ti.q.Prime := ⟨hTi.prime⟩
   have hq0 : 0 < Ti.q := hTi.q_pos
   rw [roundInput_eq Ti.q ql hTi.prime.one_lt hqi61 hql0 hql61 X]
-  obtain ⟨hc, hr⟩ := nttCoreLazy_big hTi hK (ql + Ti.q) (by unfold W; omega)
+  obtain ⟨hc, hr⟩ := nttCoreLazy_big_all hTi (ql + Ti.q) (by unfold W; omega)
     (X.map fun x => (x % ql + half ql) % ql + (Ti.q - half ql % Ti.q)) (by
     intro x hx; rw [List.mem_map] at hx; obtain ⟨y, _, rfl⟩ := hx
     have : (y % ql + half ql) % ql < ql := Nat.mod_lt _ hql0
@@ -207,9 +207,9 @@ theorem lastRow_intt (hC : Chain qs) (hl : level < qs.length)
 
 /-- **`DivFloorByLastModulusNTT`, limb level = NTT of the integer quotient** (`N = 2^K ≥ 16`).  If row `i` of
 `p0` is the (bit-exact) forward NTT of the residues `X mod q_i`, `i ≤ level`, then row `i < level` of the result
-is, limb for limb, the forward NTT of `⌊x / q_level⌋ mod q_i`.  `4 ≤ K` comes from
-`nttCoreLazy_big` (see `divFloorNTT_small_ring_repaired`). -/
-theorem divFloorNTT_limbs (hC : Chain qs) (hK : 4 ≤ K) (hl : level < qs.length)
+is, limb for limb, the forward NTT of `⌊x / q_level⌋ mod q_i`.  Every ring degree
+`N = 2^K` (`nttCoreLazy_big_all`); false before repair C02-4 for `N < 16` (`divFloorNTT_small_ring_repaired`). -/
+theorem divFloorNTT_limbs (hC : Chain qs) (hl : level < qs.length)
     (hT : ∀ i, i ≤ level → Valid (tab T i) K ∧ (tab T i).q = modulus qs i)
     (p0 : Rows) (X : List ℕ) (hX : X.length = 2 ^ K)
     (hrows : ∀ i, i ≤ level → row p0 i = nttStd (tab T i) (X.map (· % modulus qs i))) :
@@ -223,14 +223,14 @@ theorem divFloorNTT_limbs (hC : Chain qs) (hK : 4 ≤ K) (hl : level < qs.length
   have hi' : i < level := List.mem_range.mp hi
   obtain ⟨hTi, hqi⟩ := hT i (Nat.le_of_lt hi')
   rw [hrows i (Nat.le_of_lt hi')]
-  exact divFloorNTT_row (tab T i) K hTi hK _ _ hqi
+  exact divFloorNTT_row (tab T i) K hTi _ _ hqi
     (hC.small _ (modulus_mem qs i (by omega)))
     (hC.prime _ (modulus_mem qs level hl)).pos (hC.small _ (modulus_mem qs level hl))
     (hC.inv i level (by omega) hl (by omega)).1 X hX
 
 /-- **`DivRoundByLastModulusNTT`, limb level = NTT of the rounded quotient**
 `⌊(x + (q_level−1)/2) / q_level⌋ mod q_i` (`N = 2^K ≥ 16`). -/
-theorem divRoundNTT_limbs (hC : Chain qs) (hK : 4 ≤ K) (hl : level < qs.length)
+theorem divRoundNTT_limbs (hC : Chain qs) (hl : level < qs.length)
     (hT : ∀ i, i ≤ level → Valid (tab T i) K ∧ (tab T i).q = modulus qs i)
     (p0 : Rows) (X : List ℕ) (hX : X.length = 2 ^ K)
     (hrows : ∀ i, i ≤ level → row p0 i = nttStd (tab T i) (X.map (· % modulus qs i))) :
@@ -245,7 +245,7 @@ theorem divRoundNTT_limbs (hC : Chain qs) (hK : 4 ≤ K) (hl : level < qs.length
   have hi' : i < level := List.mem_range.mp hi
   obtain ⟨hTi, hqi⟩ := hT i (Nat.le_of_lt hi')
   rw [hrows i (Nat.le_of_lt hi')]
-  exact divRoundNTT_row (tab T i) K hTi hK _ _ hqi
+  exact divRoundNTT_row (tab T i) K hTi _ _ hqi
     (hC.small _ (modulus_mem qs i (by omega)))
     (hC.prime _ (modulus_mem qs level hl)).pos (hC.small _ (modulus_mem qs level hl))
     (hC.inv i level (by omega) hl (by omega)).1 X hX
@@ -291,7 +291,7 @@ theorem divFloorManyNTT_limbs (nb : ℕ) (hC : Chain qs) (hl : level < qs.length
 /-- **`DivRoundByLastModulusManyNTT`, limb level** (every `nbRescales ≤ level`; the branch `nbRescales = 1` calls
 `DivRoundByLastModulusNTT`, hence needs `N ≥ 16`; the other branches hold for any `N = 2^K`): no panic, and
 row `i ≤ level − nb` of the result is the forward NTT of the `nb`-fold round-half-up quotient. -/
-theorem divRoundManyNTT_limbs (nb : ℕ) (hC : Chain qs) (hK : nb = 1 → 4 ≤ K) (hl : level < qs.length)
+theorem divRoundManyNTT_limbs (nb : ℕ) (hC : Chain qs) (hl : level < qs.length)
     (hnb : nb ≤ level)
     (hT : ∀ i, i ≤ level → Valid (tab T i) K ∧ (tab T i).q = modulus qs i)
     (p0 : Rows) (X : List ℕ) (hX : X.length = 2 ^ K)
@@ -309,7 +309,7 @@ theorem divRoundManyNTT_limbs (nb : ℕ) (hC : Chain qs) (hK : nb = 1 → 4 ≤ 
     · subst h1
       refine ⟨divRoundNTT T qs level p0, by simp, ?_⟩
       intro i hi
-      rw [divRoundNTT_limbs T qs level K hC (hK rfl) hl hT p0 X hX hrows,
+      rw [divRoundNTT_limbs T qs level K hC hl hT p0 X hX hrows,
         row_map_range level _ i (by omega)]
       rfl
     · refine ⟨nttRows T (level - nb) (iterRound qs nb level (inttRows T level p0)), ?_, ?_⟩
@@ -335,25 +335,25 @@ theorem intt_ntt_residues (hC : Chain qs) (i : ℕ) (hi : i < qs.length)
     rw [hqi]; exact Nat.mod_lt _ hp)
 
 /-- `INTT_i` of row `i < level` of `DivFloorByLastModulusNTT` = `⌊x / q_level⌋ mod q_i` -/
-theorem divFloorNTT_coeffs (hC : Chain qs) (hK : 4 ≤ K) (hl : level < qs.length)
+theorem divFloorNTT_coeffs (hC : Chain qs) (hl : level < qs.length)
     (hT : ∀ i, i ≤ level → Valid (tab T i) K ∧ (tab T i).q = modulus qs i)
     (p0 : Rows) (X : List ℕ) (hX : X.length = 2 ^ K)
     (hrows : ∀ i, i ≤ level → row p0 i = nttStd (tab T i) (X.map (· % modulus qs i)))
     (i : ℕ) (hi : i < level) :
     inttStd (tab T i) (row (divFloorNTT T qs level p0) i)
       = X.map fun x => (x / modulus qs level) % modulus qs i := by
-  rw [divFloorNTT_limbs T qs level K hC hK hl hT p0 X hX hrows, row_map_range level _ i hi]
+  rw [divFloorNTT_limbs T qs level K hC hl hT p0 X hX hrows, row_map_range level _ i hi]
   exact intt_ntt_residues T qs K hC i (by omega) (hT i (by omega)) X hX _
 
 /-- `INTT_i` of row `i < level` of `DivRoundByLastModulusNTT` = `⌊(x + (q_level−1)/2) / q_level⌋ mod q_i` -/
-theorem divRoundNTT_coeffs (hC : Chain qs) (hK : 4 ≤ K) (hl : level < qs.length)
+theorem divRoundNTT_coeffs (hC : Chain qs) (hl : level < qs.length)
     (hT : ∀ i, i ≤ level → Valid (tab T i) K ∧ (tab T i).q = modulus qs i)
     (p0 : Rows) (X : List ℕ) (hX : X.length = 2 ^ K)
     (hrows : ∀ i, i ≤ level → row p0 i = nttStd (tab T i) (X.map (· % modulus qs i)))
     (i : ℕ) (hi : i < level) :
     inttStd (tab T i) (row (divRoundNTT T qs level p0) i)
       = X.map fun x => ((x + half (modulus qs level)) / modulus qs level) % modulus qs i := by
-  rw [divRoundNTT_limbs T qs level K hC hK hl hT p0 X hX hrows, row_map_range level _ i hi]
+  rw [divRoundNTT_limbs T qs level K hC hl hT p0 X hX hrows, row_map_range level _ i hi]
   exact intt_ntt_residues T qs K hC i (by omega) (hT i (by omega)) X hX _
 
 /-- `INTT_i` of row `i ≤ level − nb` of `DivFloorByLastModulusManyNTT` -/
@@ -369,14 +369,14 @@ theorem divFloorManyNTT_coeffs (nb : ℕ) (hC : Chain qs) (hl : level < qs.lengt
   exact intt_ntt_residues T qs K hC i (by omega) (hT i (by omega)) X hX _
 
 /-- `INTT_i` of row `i ≤ level − nb` of `DivRoundByLastModulusManyNTT` -/
-theorem divRoundManyNTT_coeffs (nb : ℕ) (hC : Chain qs) (hK : nb = 1 → 4 ≤ K)
+theorem divRoundManyNTT_coeffs (nb : ℕ) (hC : Chain qs)
     (hl : level < qs.length) (hnb : nb ≤ level)
     (hT : ∀ i, i ≤ level → Valid (tab T i) K ∧ (tab T i).q = modulus qs i)
     (p0 : Rows) (X : List ℕ) (hX : X.length = 2 ^ K)
     (hrows : ∀ i, i ≤ level → row p0 i = nttStd (tab T i) (X.map (· % modulus qs i))) :
     ∃ p1, divRoundManyNTT T qs level nb p0 = some p1 ∧ ∀ i, i ≤ level - nb →
       inttStd (tab T i) (row p1 i) = X.map fun x => roundSeq qs level nb x % modulus qs i := by
-  obtain ⟨p1, h1, h2⟩ := divRoundManyNTT_limbs T qs level K nb hC hK hl hnb hT p0 X hX hrows
+  obtain ⟨p1, h1, h2⟩ := divRoundManyNTT_limbs T qs level K nb hC hl hnb hT p0 X hX hrows
   refine ⟨p1, h1, fun i hi => ?_⟩
   rw [h2 i hi]
   exact intt_ntt_residues T qs K hC i (by omega) (hT i (by omega)) X hX _
@@ -419,10 +419,9 @@ theorem tabs16_ok : ∀ i, i ≤ 1 → Valid (tab (mkTabs 16 [97, 193] [5, 5]) i
 (`INTTStandardLazy`, ring/ntt.go: `MRedLazy` for `N < 16`, values in `[1, 2q]`, `0 ↦ q`) to the other moduli and
 returned `⌊x/q_ℓ⌋ − 1` (this very witness gave the constant `96 = −1 mod 97`; reproduced on /repo, and on the
 conjugate-invariant ring for every `N`).  With the reducing `INTT` the witness — `N = 8`, `qs = [97, 193]`,
-level 1, the ZERO polynomial in the NTT domain, all hypotheses of `divFloorNTT_limbs` except `4 ≤ K` — gives
-the zero polynomial.  (`4 ≤ K` is no longer FORCED; it remains a hypothesis of the limb theorems only because
-the no-wrap theorem `nttCoreLazy_big` for `NTTLazy` on residues of a larger prime is proved for the unrolled
-schedule `N ≥ 16`; the `N = 8` behaviour is covered by the correspondence ties and probes.) -/
+level 1, the ZERO polynomial in the NTT domain — gives
+the zero polynomial.  (The limb theorems `divFloorNTT_limbs` / `divRoundNTT_limbs` now hold for every `K`, this witness included:
+see the `K = 3` examples below.) -/
 theorem divFloorNTT_small_ring_repaired :
     let T8 := mkTabs 8 [97, 193] [5, 5]
     let qs := [97, 193]
@@ -442,6 +441,19 @@ theorem divFloorNTT_small_ring_repaired :
   | 1, _ => decide +kernel
   | i + 2, h => exact absurd h (by omega)
 
+/-- the general theorems now cover the small ring: `N = 8` (`K = 3`), a NON-zero polynomial -/
+def exX8 : List ℕ := (List.range 8).map fun j => 2000 * j + 193 * 5
+def exT8 : Tabs := mkTabs 8 [97, 193] [5, 5]
+def exP0_8 : Rows := [nttStd (tab exT8 0) (exX8.map (· % 97)), nttStd (tab exT8 1) (exX8.map (· % 193))]
+theorem exP0_8_rows : ∀ i, i ≤ 1 → row exP0_8 i = nttStd (tab exT8 i) (exX8.map (· % modulus [97, 193] i))
+  | 0, _ => rfl
+  | 1, _ => rfl
+  | i + 2, h => absurd h (by omega)
+example : divFloorNTT exT8 [97, 193] 1 exP0_8 = [nttStd (tab exT8 0) (exX8.map fun x => (x / 193) % 97)] :=
+  divFloorNTT_limbs exT8 [97, 193] 1 3 chain_97_193 (by decide) tabs8_ok exP0_8 exX8 rfl exP0_8_rows
+example : divRoundNTT exT8 [97, 193] 1 exP0_8 = [nttStd (tab exT8 0) (exX8.map fun x => ((x + 96) / 193) % 97)] :=
+  divRoundNTT_limbs exT8 [97, 193] 1 3 chain_97_193 (by decide) tabs8_ok exP0_8 exX8 rfl exP0_8_rows
+
 /-! ## non-vacuity of the main theorems: `N = 16`, `qs = [97, 193]`, level 1 -/
 
 /-- a test polynomial with 16 coefficients `< 97·193` -/
@@ -457,12 +469,12 @@ theorem exP0_rows : ∀ i, i ≤ 1 → row exP0 i = nttStd (tab exT16 i) (exX.ma
 -- all hypotheses of `divFloorNTT_limbs` / `divRoundNTT_limbs` are met by a non-trivial instance
 example : divFloorNTT exT16 [97, 193] 1 exP0
     = [nttStd (tab exT16 0) (exX.map fun x => (x / 193) % 97)] :=
-  divFloorNTT_limbs exT16 [97, 193] 1 4 chain_97_193 (by decide) (by decide) tabs16_ok exP0 exX rfl
+  divFloorNTT_limbs exT16 [97, 193] 1 4 chain_97_193 (by decide) tabs16_ok exP0 exX rfl
     exP0_rows
 
 example : divRoundNTT exT16 [97, 193] 1 exP0
     = [nttStd (tab exT16 0) (exX.map fun x => ((x + 96) / 193) % 97)] :=
-  divRoundNTT_limbs exT16 [97, 193] 1 4 chain_97_193 (by decide) (by decide) tabs16_ok exP0 exX rfl
+  divRoundNTT_limbs exT16 [97, 193] 1 4 chain_97_193 (by decide) tabs16_ok exP0 exX rfl
     exP0_rows
 
 example : ∃ p1, divFloorManyNTT exT16 [97, 193] 1 1 exP0 = some p1 ∧ ∀ i, i ≤ 1 - 1 →
@@ -472,7 +484,7 @@ example : ∃ p1, divFloorManyNTT exT16 [97, 193] 1 1 exP0 = some p1 ∧ ∀ i, 
 
 example : ∃ p1, divRoundManyNTT exT16 [97, 193] 1 1 exP0 = some p1 ∧ ∀ i, i ≤ 1 - 1 →
     row p1 i = nttStd (tab exT16 i) (exX.map fun x => roundSeq [97, 193] 1 1 x % modulus [97, 193] i) :=
-  divRoundManyNTT_limbs exT16 [97, 193] 1 4 1 chain_97_193 (fun _ => by decide) (by decide) (by decide)
+  divRoundManyNTT_limbs exT16 [97, 193] 1 4 1 chain_97_193 (by decide) (by decide)
     tabs16_ok exP0 exX rfl exP0_rows
 
 -- tests: the coefficient-domain view of the results on the instance (evaluated)
